@@ -139,4 +139,20 @@ var Props = map[string]*PropCfg{
 		Assume:    []string{"statement-level yields reach every interleaving that matters because the library has no atomics or locks of its own (R2 in DESIGN.md); sync/atomic calls introduced later are wrapped cooperatively", "read/write races on spare capacity are judged by their consequence (output differs from the solo run), not by fingerprints"},
 		RealStub:  map[string][]string{"real": {"tokenizer, parser, validator, formatter, generator of the working tree (instrumented: yield before every statement, map order, sync wrappers)", "import loader reading real files from a temp dir"}, "stub": {"Go scheduler: cooperative baton scheduler, one runnable goroutine at a time", "Go map iteration order: chosen per task by the simulator"}},
 	},
+	"C19": {
+		ID: "C19", Level: "fault_enumeration", TextOnly: true, CLI: true,
+		RepoInstr: map[string]instrument.Options{
+			".":                    {MapOrder: true, Globals: true, OSShim: true},
+			"internal/importgraph": {MapOrder: true},
+			"iohelp":               {MapOrder: true, Alloc: true, Step: true, Globals: true},
+			"main/bebopc-go":       {OSShim: true},
+			"main/bebopfmt":        {OSShim: true},
+		},
+		Rule: "the real bebopc-go and bebopfmt main packages, built from the working tree with every os call routed through the simos shim, run as OS processes in a private workspace that holds the input schema(s) (valid / syntax error / validation error / with an import / with a missing import) and a PRE-EXISTING target (the -o file with known bytes; the schema file(s) being rewritten by bebopfmt -w, also as a directory and as several arguments). The fault-free run gives the operation list; then EVERY operation index x {error (errno menu), torn write with k bytes written, SIGKILL before, SIGKILL after} as applicable to the operation kind. Oracles: failed or crashed run => every pre-existing file byte-identical (crash: or identical to the complete fault-free result); exit status non-zero <=> something other than warnings was printed; exit 0 => output == fault-free output (bebopc-go) / every rewritten file re-parses with the real ReadFile to the same schema modulo comments (bebopfmt); " +
+			"distinct_nontrivial counts distinct (tool, input class, operation kind x fault kind, exit status) tuples",
+		RandProgs: map[string]int{"quick": 10, "thorough": 40},
+		Runs:      map[string]int{"quick": 320, "thorough": 6000},
+		Assume:    []string{"process-crash model: what reached the file system before SIGKILL stays, buffered data in the process is lost; no power-loss model (the tools never fsync, so any outcome would be legal)", "os APIs that simos does not implement are left as real os calls and escape injection (none today; listed in evidence as instrumentation.os_left)"},
+		RealStub:  map[string][]string{"real": {"bebopc-go and bebopfmt main packages and the whole library, as separate OS processes (os calls routed through simos)", "the file system: a real temp directory"}, "stub": {"failures of the OS: injected at the os call boundary by simos from an explicit fault plan", "reference file-system model: snapshot of the workspace before the run"}},
+	},
 }
